@@ -56,6 +56,7 @@ var t2WidthSpec = map[int64]widthSpec{
 }
 
 func propC05(w *World, r *Report) {
+	defer RunCacheParam(w, r, "/cff")
 	r.Rule("opcoverage: every operator of TN5177 Appendix A is a case of the interpreter's operator switch || numenc: the three one/two-byte integer operand encodings decode to b0-139, (b0-247)*256+b1+108 and -(b0-251)*256-b1-108 (linear forms of the SSA values, shown not to wrap) || subrbias: a subroutine INDEX is indexed with operand + bias where the bias is 107/1131/32768 chosen by comparing the length of that same INDEX with 1240 and 33900 || maskbytes: the number k of hintmask/cntrmask bytes satisfies 8k >= nStems and 8k <= nStems+7 (prover) || widthrule: the width-presence predicate passed at each first stack-clearing operator agrees with the specification at every operand count a valid program can have (constant folding of the predicate) || storagescope: the transient array lives outside the interpreter loops (put in one subroutine, get after return) || bounds/loopterm/precond on the interpreter (rules of C02 restricted to cff charstring decoding)")
 	for _, a := range boundsAssumptions {
 		r.Assumes(a)
@@ -109,6 +110,49 @@ func propC05(w *World, r *Report) {
 		}
 	}
 	r.Floor("opcoverage", 45)
+
+	// ---- operandcount: path operators reject operand counts their form does not admit
+	r.Rule("operandcount: the case of every path operator (the move, line, curve and flex operators) contains a test of the operand count (a condition on len of the operand stack or of a slice cut from it) that leads to an error return: a program with an operand deleted or added is rejected, not decoded as something else")
+	pathOps := map[string]bool{"rmoveto": true, "hmoveto": true, "vmoveto": true, "rlineto": true, "hlineto": true, "vlineto": true, "rrcurveto": true, "rcurveline": true, "rlinecurve": true, "hhcurveto": true, "vvcurveto": true, "hvcurveto": true, "vhcurveto": true, "flex": true, "flex1": true, "hflex": true, "hflex1": true}
+	doneClause := map[*ast.CaseClause]bool{}
+	for _, v := range specOps {
+		cc := caseConsts[v]
+		if cc == nil || doneClause[cc] || !pathOps[t2SpecOps[v]] {
+			continue
+		}
+		doneClause[cc] = true
+		var names []string
+		for _, v2 := range specOps {
+			if caseConsts[v2] == cc {
+				names = append(names, t2SpecOps[v2])
+			}
+		}
+		key := r.MkKey("operandcount", "decodeCharString", "case "+strings.Join(names, ", "))
+		rejects := false
+		ast.Inspect(cc, func(n ast.Node) bool {
+			ifs, ok := n.(*ast.IfStmt)
+			if !ok {
+				return true
+			}
+			if !strings.Contains(types.ExprString(ifs.Cond), "len(") {
+				return true
+			}
+			ast.Inspect(ifs.Body, func(m ast.Node) bool {
+				if rt, ok := m.(*ast.ReturnStmt); ok && len(rt.Results) == 2 {
+					if id, ok := rt.Results[1].(*ast.Ident); !ok || id.Name != "nil" {
+						rejects = true
+					}
+				}
+				return true
+			})
+			return true
+		})
+		if rejects {
+			r.OK("operandcount", key, w.Pos(cc.Pos()), "rejects operand counts the operator does not admit")
+		} else {
+			r.Fail("operandcount", key, w.Pos(cc.Pos()), "the case of "+strings.Join(names, ", ")+" has no test of the operand count that leads to an error: with too few operands the operator is skipped (or applied to what is there), surplus operands are dropped, and the program is decoded as a different glyph instead of being rejected", nil)
+		}
+	}
 
 	// ---- numenc
 	checkNumEnc(w, r, p, fd, fn, info)
